@@ -9,10 +9,20 @@ Local Open Scope N_scope.
 
 Lemma same_announcement_iff : forall a b, same_announcement a b <-> hkey_of a = hkey_of b.
 Proof.
-  intros a b. unfold same_announcement, hkey_of. split.
+  intros a b. unfold same_announcement. split.
   - intros [H1 [H2 [H3 [H4 [H5 [H6 [H7 [H8 [H9 [H10 [H11 [H12 [H13 [H14 [H15 H16]]]]]]]]]]]]]]].
-    congruence.
-  - intros H. inversion H. repeat split; assumption.
+    unfold hkey_of. rewrite H1, H2, H3, H4, H5, H6, H7, H8, H9, H10, H11, H12, H13, H14, H15, H16. reflexivity.
+  - intros H.
+    pose proof (f_equal h_nh H) as E1. pose proof (f_equal h_src H) as E2.
+    pose proof (f_equal h_lp H) as E3. pose proof (f_equal h_med H) as E4.
+    pose proof (f_equal h_bgpid H) as E5. pose proof (f_equal h_oid H) as E6.
+    pose proof (f_equal h_agg H) as E7. pose proof (f_equal h_ebgp H) as E8.
+    pose proof (f_equal h_atomic H) as E9. pose proof (f_equal h_origin H) as E10.
+    pose proof (f_equal h_otc H) as E11. pose proof (f_equal h_as H) as E12.
+    pose proof (f_equal h_cl H) as E13. pose proof (f_equal h_comms H) as E14.
+    pose proof (f_equal h_lcomms H) as E15. pose proof (f_equal h_unk H) as E16.
+    cbn in E1, E2, E3, E4, E5, E6, E7, E8, E9, E10, E11, E12, E13, E14, E15, E16.
+    repeat split; assumption.
 Qed.
 
 (* ---------------------------------------------------------------- sizes of the two maps *)
@@ -95,7 +105,7 @@ Proof.
   intros k t. unfold keys_of. rewrite in_flat_map. split.
   - intros [[pfx p] [HI HK]]. cbn [snd] in HK. destruct p as [snh|r b]; cbn [path_hkey] in HK; [destruct HK|].
     destruct HK as [HK|[]]. eauto.
-  - intros [pfx [r [b [HI HK]]]]. exists (pfx, PBgp r b). split; [assumption|]. cbn. now left.
+  - intros [pfx [r [b [HI HK]]]]. exists (pfx, PBgp r b). split; [assumption|]. cbn [snd path_hkey]. now left.
 Qed.
 
 Lemma count_pos_iff : forall k t, (0 < count k t)%nat <-> exists pfx r b, In (pfx, PBgp r b) t /\ hkey_of b = k.
@@ -108,7 +118,7 @@ Proof.
     destruct (hkey_eq_dec (hkey_of b) k); [eauto|discriminate].
   - intros [pfx [r [b [HI HK]]]].
     assert (HF : In (pfx, PBgp r b) (filter (has_key k) t)).
-    { apply filter_In. split; [assumption|]. unfold has_key. cbn. destruct (hkey_eq_dec (hkey_of b) k); [reflexivity|contradiction]. }
+    { apply filter_In. split; [assumption|]. unfold has_key. cbn [snd path_hkey]. destruct (hkey_eq_dec (hkey_of b) k); [reflexivity|contradiction]. }
     destruct (filter (has_key k) t); [destruct HF|cbn; lia].
 Qed.
 
@@ -128,10 +138,10 @@ Section Final.
   Proof.
     intros c ops pfx1 pfx2 r1 b1 r2 b2 a H1 H2 E.
     pose proof (run_inv P apply s Hap c ops) as I. fold a in I.
-    destruct (I_tbl P s a I _ _ H1) as [r1' [b1' [E1 B1]]]. inversion E1; subst r1' b1'.
-    destruct (I_tbl P s a I _ _ H2) as [r2' [b2' [E2 B2]]]. inversion E2; subst r2' b2'.
+    destruct (I_tbl P a I _ _ H1) as [r1' [b1' [E1 B1]]]. inversion E1; subst r1' b1'.
+    destruct (I_tbl P a I _ _ H2) as [r2' [b2' [E2 B2]]]. inversion E2; subst r2' b2'.
     apply same_announcement_iff.
-    eapply (wf_inj _ _ (pm a) (I_wf P s a I)); [exact B1|]. rewrite E. exact B2.
+    eapply (wf_inj _ _ (pm a) (I_wf P a I)); [exact B1|]. rewrite E. exact B2.
   Qed.
 
   (* only BGP paths are stored, each as it was announced *)
@@ -141,8 +151,8 @@ Section Final.
   Proof.
     intros c ops pfx p a H.
     pose proof (run_inv P apply s Hap c ops) as I. fold a in I. split.
-    - destruct (I_tbl P s a I _ _ H) as [r [b [E _]]]. eauto.
-    - now apply (I_ann P s a I).
+    - destruct (I_tbl P a I _ _ H) as [r [b [E _]]]. eauto.
+    - now apply (I_ann P a I).
   Qed.
 
   (* every withdrawal handed to the clients repeats, identifier included, a path announced earlier
@@ -150,12 +160,12 @@ Section Final.
   Lemma withdraw_id : forall c ops l1 l2 pfx w,
     elog (run P apply s c ops) = l1 ++ Withdraw pfx w :: l2 -> In (Announce pfx w) l2.
   Proof.
-    intros c ops. apply (I_wd P s _ (run_inv P apply s Hap c ops)).
+    intros c ops. apply (I_wd P _ (run_inv P apply s Hap c ops)).
   Qed.
 
   (* ... and it is the announcement of the path whose withdrawal was asked for *)
   Lemma withdraw_matches : forall (a a' : aro P) pfx p,
-    remove_exported P s a pfx p = (a', true) -> Inv P s a ->
+    remove_exported P s a pfx p = (a', true) -> Inv P a ->
     exists sp, In (pfx, sp) (tbl a) /\ is_announcement_of sp p = true /\
                elog a' = Withdraw pfx sp :: elog a.
   Proof.
@@ -164,8 +174,8 @@ Section Final.
     rewrite Hap in H. rewrite <- TG in H.
     destruct (find (fun sp => is_announcement_of sp p) (tbl_get pfx (tbl a))) as [sp|] eqn:F; [|inversion H].
     apply find_some in F. destruct F as [HIn HA]. apply in_tbl_get in HIn.
-    destruct (I_tbl P s a I pfx sp HIn) as [r [b [-> Bsp]]]. cbn [path_hkey] in H.
-    destruct (prel_present hkey hkey_eq_dec (pm a) (hkey_of b) (b_pid b) (I_wf P s a I) Bsp) as [m' [PR _]].
+    destruct (I_tbl P a I pfx sp HIn) as [r [b [-> Bsp]]]. cbn [path_hkey] in H.
+    destruct (prel_present hkey hkey_eq_dec (pm a) (hkey_of b) (b_pid b) (I_wf P a I) Bsp) as [m' [PR _]].
     rewrite PR in H. inversion H; subst a'. cbn [elog]. eauto.
   Qed.
 
@@ -176,7 +186,7 @@ Section Final.
   Proof.
     intros c ops a.
     pose proof (run_inv P apply s Hap c ops) as I. fold a in I.
-    pose proof (I_wf P s a I) as W.
+    pose proof (I_wf P a I) as W.
     assert (L : length (ids (pm a)) = ids_in_use (tbl a)).
     { rewrite (wf_sizes hkey hkey_eq_dec (pm a) W). unfold ids_in_use.
       rewrite <- (map_length fst (byk (pm a))).
@@ -186,9 +196,9 @@ Section Final.
       - intros k. rewrite nodup_In, in_keys_of, <- count_pos_iff. split.
         + intros H. destruct (in_keys_bget hkey hkey_eq_dec k (byk (pm a)) H) as [i E].
           pose proof (proj2 (rc_pos_iff hkey hkey_eq_dec (pm a) k W) (ex_intro _ i E)) as R.
-          rewrite (I_cnt P s a I) in R. lia.
+          rewrite (I_cnt P a I) in R. lia.
         + intros H.
-          assert (R : 1 <= rc hkey hkey_eq_dec (pm a) k) by (rewrite (I_cnt P s a I); lia).
+          assert (R : 1 <= rc hkey hkey_eq_dec (pm a) k) by (rewrite (I_cnt P a I); lia).
           apply (rc_pos_iff hkey hkey_eq_dec (pm a) k W) in R. destruct R as [i E].
           eapply bget_in_keys; eassumption. }
     split; [exact L|]. rewrite (wf_used _ _ (pm a) W). now rewrite L.
@@ -202,8 +212,8 @@ Section Final.
   Proof.
     intros c ops k a.
     pose proof (run_inv P apply s Hap c ops) as I. fold a in I.
-    pose proof (I_wf P s a I) as W.
-    split; [apply (I_div P s a I)|]. intros L.
+    pose proof (I_wf P a I) as W.
+    split; [apply (I_div P a I)|]. intros L.
     destruct (used_exact c ops) as [LE _]. fold a in LE.
     destruct (bget k (byk (pm a))) as [i|] eqn:E.
     - destruct (padd_existing hkey hkey_eq_dec (pm a) k i W E) as [m' [PA _]]. eauto.
